@@ -15,7 +15,7 @@ R.type_aliases["QuicDeliveryHandler"] = "Callable"
 
 R.field_types(
     "QuicSentPacket",
-    delivery_handlers="list[tuple[Callable, list[Any]]]",
+    delivery_handlers="list[tuple[Callable, Any]]",  # (handler, argument sequence): same declaration as contracts/quic_recovery.py
     quic_logger_frames="list[Any]",
     sent_time="Optional[float]",
 )
@@ -336,7 +336,7 @@ R.contract(
 # ---------------------------------------------------------------------------------------------------- start_frame
 R.contract(
     "QuicPacketBuilder.start_frame",
-    params={"handler": "Optional[Callable]", "handler_args": "list[Any]"},
+    params={"handler": "Optional[Callable]", "handler_args": "Any"},
     returns="Buffer",
     check_frame=True, check_frame_syntactic=True,
     # from the call sites (connection.py _write_*_frame): a packet is open, the announced capacity covers the frame type
